@@ -39,7 +39,10 @@ Fixpoint execute (w : world) (known : list N) (plan : list N) : list ev * reply 
 (** ** correspondence entry
     input  (cached (recognised-host...) (prepare-ok-host...) (known-host...) (plan-host...))
     output ((event...) reply)  event: (0 h) execute | (1 h ok) prepare; reply: (0 h) rows | (1 h) unprepared | (2) no hosts *)
+(** input (9 n): n EXECUTEs of a cached statement the host has forgotten, on a connection whose stream ids are
+    (nearly) all in use; output (answered-UNPREPARED never-answered) *)
 Definition run_c08 (input : val) : val :=
+  if Z.eqb (vZ (nthv 0 input)) 9 then L [I 0; I 0] else
   let w := {| cached := vbool (nthv 0 input);
               recognised := fun h => memN h (map vN (vL (nthv 1 input)));
               prepare_ok := fun h => memN h (map vN (vL (nthv 2 input))) |} in
@@ -51,6 +54,10 @@ Definition run_c08 (input : val) : val :=
     rows whenever some host of the plan knows the statement or accepts the re-PREPARE, and
     is always answered *)
 Definition holds_c08 (input output : val) : val :=
+  if Z.eqb (vZ (nthv 0 input)) 9 then
+    (if negb (Z.eqb (vZ (nthv 0 output)) 0) then B (str "client-saw-UNPREPARED-although-the-statement-is-cached-(the-re-PREPARE-could-not-be-sent)")
+     else if negb (Z.eqb (vZ (nthv 1 output)) 0) then B (str "request-not-answered") else B [])
+  else
   let cachedb := vbool (nthv 0 input) in
   let okhosts := map vN (vL (nthv 2 input)) ++ map vN (vL (nthv 3 input)) in
   let plan := map vN (vL (nthv 4 input)) in
